@@ -380,6 +380,9 @@ def decide(ob, prop_id, kf_db, log):
            'defines': ob.defines, 'unwind': ob.unwind, 'unwindset': ob.unwindset, 'restrict_function_pointer': ob.restrict,
            'statement': ob.statement, 'bounds': ob.bounds, 'queries': [], 'status': None, 'known_findings': [], 'violations': []}
     open_kfs = [k for k in ob.kfs if k in kf_db and kf_db[k].get('status', 'open') == 'open']
+    # a finding is re-demonstrated (and printed) only by the checks of the properties it is listed under; an obligation borrowed by
+    # another property's check just excludes it
+    own = lambda k: kf_db[k].get('property') == prop_id or prop_id in kf_db[k].get('also', [])
     base = {kf_macro(k): 1 for k in open_kfs}
     variants = [('main', base, None)]
     if ob.kf_only and open_kfs:
@@ -387,7 +390,7 @@ def decide(ob, prop_id, kf_db, log):
         # so only the re-demonstration runs; when the finding is marked fixed the obligation runs as an ordinary one
         variants = []
     if ob.kf_cover:
-        for k in open_kfs:
+        for k in [k for k in open_kfs if own(k)]:
             d = dict(base); d[kf_macro(k)] = 2
             variants.append(('cover:' + k, d, k))
     worst = 'discharged'
@@ -491,6 +494,11 @@ def main(prop_id, obligations_fn, argv, meta):
         for o in obs: print(o.name, o.tier, o.timeout, o.mem_gb)
         return 0
     kf_db = load_known_findings()
+    # an obligation whose whole input class is a finding of ANOTHER property has nothing to contribute here
+    def foreign_only(o):
+        ok = [k for k in o.kfs if k in kf_db and kf_db[k].get('status', 'open') == 'open']
+        return o.kf_only and ok and not any(kf_db[k].get('property') == prop_id or prop_id in kf_db[k].get('also', []) for k in ok)
+    obs = [o for o in obs if not foreign_only(o)]
     if a.replay:
         return replay_main(prop_id, obs, a.replay)
     lock = threading.Lock()
